@@ -2,23 +2,378 @@ import JPV.Props.Common
 namespace JPV.Proofs
 open JPV
 
-theorem compare_correct (a b : Impl.Obj) (op : COp) (ha : Props.Comparand a) (hb : Props.Comparand b)
-    (wa : Props.ObjWF a) (wb : Props.ObjWF b) :
-    Impl.compare a op b = Spec.compare (Props.floorObj a) op (Props.floorObj b) := by sorry
+/-! ### Induction principle for the nested inductive `Json` -/
+
+-- mutual structural recursion over the nested inductive
+mutual
+theorem jsonInd {P : Json → Prop}
+    (hnull : P .null) (hbool : ∀ b, P (.bool b)) (hnum : ∀ x, P (.num x)) (hstr : ∀ s, P (.str s))
+    (harr : ∀ xs : List Json, (∀ x ∈ xs, P x) → P (.arr xs))
+    (hobj : ∀ kvs : List (Str × Json), (∀ kv ∈ kvs, P kv.2) → P (.obj kvs)) : ∀ a : Json, P a
+  | .null => hnull
+  | .bool b => hbool b
+  | .num x => hnum x
+  | .str s => hstr s
+  | .arr xs => harr xs (jsonIndArr hnull hbool hnum hstr harr hobj xs)
+  | .obj kvs => hobj kvs (jsonIndObj hnull hbool hnum hstr harr hobj kvs)
+theorem jsonIndArr {P : Json → Prop}
+    (hnull : P .null) (hbool : ∀ b, P (.bool b)) (hnum : ∀ x, P (.num x)) (hstr : ∀ s, P (.str s))
+    (harr : ∀ xs : List Json, (∀ x ∈ xs, P x) → P (.arr xs))
+    (hobj : ∀ kvs : List (Str × Json), (∀ kv ∈ kvs, P kv.2) → P (.obj kvs)) :
+    ∀ xs : List Json, ∀ x ∈ xs, P x
+  | [], _, h => nomatch h
+  | y :: ys, x, h => by
+      have hy := jsonInd hnull hbool hnum hstr harr hobj y
+      have hys := jsonIndArr hnull hbool hnum hstr harr hobj ys
+      rcases List.mem_cons.1 h with rfl | h'
+      · exact hy
+      · exact hys x h'
+theorem jsonIndObj {P : Json → Prop}
+    (hnull : P .null) (hbool : ∀ b, P (.bool b)) (hnum : ∀ x, P (.num x)) (hstr : ∀ s, P (.str s))
+    (harr : ∀ xs : List Json, (∀ x ∈ xs, P x) → P (.arr xs))
+    (hobj : ∀ kvs : List (Str × Json), (∀ kv ∈ kvs, P kv.2) → P (.obj kvs)) :
+    ∀ kvs : List (Str × Json), ∀ kv ∈ kvs, P kv.2
+  | [], _, h => nomatch h
+  | (k, v) :: rest, kv, h => by
+      have hv := jsonInd hnull hbool hnum hstr harr hobj v
+      have hrest := jsonIndObj hnull hbool hnum hstr harr hobj rest
+      rcases List.mem_cons.1 h with rfl | h'
+      · exact hv
+      · exact hrest kv h'
+end
+
+/-! ### Well-formedness as membership statements -/
+
+theorem wfArr_iff (xs : List Json) : Json.WFArr xs ↔ ∀ x ∈ xs, x.WF := by
+  induction xs with
+  | nil => simp [Json.WFArr]
+  | cons x xs ih => simp [Json.WFArr, ih]
+
+theorem wfObj_iff (l : List (Str × Json)) : Json.WFObj l ↔ ∀ kv ∈ l, kv.2.WF := by
+  induction l with
+  | nil => simp [Json.WFObj]
+  | cons kv l ih =>
+    obtain ⟨k, v⟩ := kv
+    simp [Json.WFObj, ih]
+
+/-! ### `lookup` facts -/
+
+theorem mem_of_lookup {k : Str} {v : Json} :
+    ∀ {l : List (Str × Json)}, Json.lookup k l = some v → (k, v) ∈ l
+  | [], h => by simp [Json.lookup] at h
+  | (k', v') :: rest, h => by
+      simp only [Json.lookup] at h
+      split at h
+      · next hk =>
+        cases h; subst hk; exact List.mem_cons_self
+      · exact List.mem_cons_of_mem _ (mem_of_lookup h)
+
+theorem lookup_of_mem {k : Str} {v : Json} :
+    ∀ {l : List (Str × Json)}, (Json.keys l).Nodup → (k, v) ∈ l → Json.lookup k l = some v
+  | [], _, h => nomatch h
+  | (k', v') :: rest, hnd, h => by
+      simp only [Json.keys, List.map_cons, List.nodup_cons] at hnd
+      simp only [Json.lookup]
+      rcases List.mem_cons.1 h with heq | h'
+      · cases heq; simp
+      · have hk : k' ≠ k := by
+          intro hk; subst hk
+          exact hnd.1 (List.mem_map.2 ⟨(k', v), h', rfl⟩)
+        rw [if_neg hk]
+        exact lookup_of_mem (l := rest) hnd.2 h'
+
+theorem mem_keys_of_lookup {k : Str} {v : Json} {l : List (Str × Json)}
+    (h : Json.lookup k l = some v) : k ∈ Json.keys l :=
+  List.mem_map.2 ⟨(k, v), mem_of_lookup h, rfl⟩
+
+/-! ### Pigeonhole on duplicate-free lists (core only) -/
+
+theorem length_le_of_nodup_subset {α} [DecidableEq α] :
+    ∀ {l r : List α}, l.Nodup → (∀ x ∈ l, x ∈ r) → l.length ≤ r.length
+  | [], _, _, _ => Nat.zero_le _
+  | a :: l', r, hnd, hsub => by
+      rw [List.nodup_cons] at hnd
+      have ha : a ∈ r := hsub a List.mem_cons_self
+      have hsub' : ∀ x ∈ l', x ∈ r.erase a := by
+        intro x hx
+        have hne : x ≠ a := by intro h; subst h; exact hnd.1 hx
+        exact (List.mem_erase_of_ne hne).2 (hsub x (List.mem_cons_of_mem _ hx))
+      have ih := length_le_of_nodup_subset hnd.2 hsub'
+      have hl := List.length_erase_of_mem ha
+      have hpos : 0 < r.length := List.length_pos_of_mem ha
+      simp only [List.length_cons]
+      omega
+
+theorem subset_of_nodup_subset_length_le {α} [DecidableEq α] :
+    ∀ {l r : List α}, l.Nodup → (∀ x ∈ l, x ∈ r) → r.length ≤ l.length → ∀ x ∈ r, x ∈ l
+  | [], r, _, _, hlen => by
+      have : r = [] := List.eq_nil_of_length_eq_zero (by simpa using hlen)
+      subst this; intro x hx; exact hx
+  | a :: l', r, hnd, hsub, hlen => by
+      rw [List.nodup_cons] at hnd
+      have ha : a ∈ r := hsub a List.mem_cons_self
+      have hsub' : ∀ x ∈ l', x ∈ r.erase a := by
+        intro x hx
+        have hne : x ≠ a := by intro h; subst h; exact hnd.1 hx
+        exact (List.mem_erase_of_ne hne).2 (hsub x (List.mem_cons_of_mem _ hx))
+      have hl := List.length_erase_of_mem ha
+      have hpos : 0 < r.length := List.length_pos_of_mem ha
+      have hlen' : (r.erase a).length ≤ l'.length := by
+        simp only [List.length_cons] at hlen
+        omega
+      have ih := subset_of_nodup_subset_length_le hnd.2 hsub' hlen'
+      intro x hx
+      by_cases hxa : x = a
+      · subst hxa; exact List.mem_cons_self
+      · exact List.mem_cons_of_mem _ (ih x ((List.mem_erase_of_ne hxa).2 hx))
+
+/-! ### `objSub` / `objEq` characterisations -/
+
+theorem objSub_iff (l r : List (Str × Json)) :
+    Spec.objSub l r = true ↔
+      ∀ kv ∈ l, ∃ v', Json.lookup kv.1 r = some v' ∧ Spec.jsonEq kv.2 v' = true := by
+  induction l with
+  | nil => simp [Spec.objSub]
+  | cons kv l ih =>
+    obtain ⟨k, v⟩ := kv
+    simp only [Spec.objSub, Bool.and_eq_true, ih, List.forall_mem_cons]
+    constructor
+    · rintro ⟨h1, h2⟩
+      refine ⟨?_, h2⟩
+      cases hlk : Json.lookup k r with
+      | none => simp [hlk] at h1
+      | some v' => exact ⟨v', rfl, by simpa [hlk] using h1⟩
+    · rintro ⟨⟨v', h1, h1'⟩, h2⟩
+      refine ⟨?_, h2⟩
+      simp [h1, h1']
+
+theorem keys_subset_of_objSub {l r : List (Str × Json)} (h : Spec.objSub l r = true) :
+    ∀ k ∈ Json.keys l, k ∈ Json.keys r := by
+  intro k hk
+  obtain ⟨kv, hkv, rfl⟩ := List.mem_map.1 hk
+  obtain ⟨v', hv', _⟩ := (objSub_iff l r).1 h kv hkv
+  exact mem_keys_of_lookup hv'
+
+theorem keys_length (l : List (Str × Json)) : (Json.keys l).length = l.length := by
+  simp [Json.keys]
+
+/-! ### Impl = Spec on the recursive helpers -/
+
+theorem arrEq_correct_aux :
+    ∀ (xs ys : List Json),
+      (∀ x ∈ xs, ∀ y, y.WF → Impl.jsonEq x y = Spec.jsonEq x y) →
+      Json.WFArr ys → Impl.arrEq xs ys = Spec.arrEq xs ys
+  | [], [], _, _ => by simp [Impl.arrEq, Spec.arrEq]
+  | [], _ :: _, _, _ => by simp [Impl.arrEq, Spec.arrEq]
+  | _ :: _, [], _, _ => by simp [Impl.arrEq, Spec.arrEq]
+  | x :: xs, y :: ys, ih, hw => by
+      simp only [Json.WFArr] at hw
+      simp only [Impl.arrEq, Spec.arrEq]
+      rw [ih x List.mem_cons_self y hw.1,
+        arrEq_correct_aux xs ys (fun x hx => ih x (List.mem_cons_of_mem _ hx)) hw.2]
+
+theorem objEq_correct_aux (r : List (Str × Json)) (hr : Json.WFObj r) :
+    ∀ (l : List (Str × Json)),
+      (∀ kv ∈ l, ∀ y, y.WF → Impl.jsonEq kv.2 y = Spec.jsonEq kv.2 y) →
+      Impl.objEq l r = Spec.objSub l r
+  | [], _ => by simp [Impl.objEq, Spec.objSub]
+  | (k, v) :: rest, ih => by
+      simp only [Impl.objEq, Spec.objSub]
+      rw [objEq_correct_aux r hr rest (fun kv hkv => ih kv (List.mem_cons_of_mem _ hkv))]
+      cases hlk : Json.lookup k r with
+      | none => rfl
+      | some v' =>
+        have hw : v'.WF := (wfObj_iff r).1 hr (k, v') (mem_of_lookup hlk)
+        simp only
+        rw [ih (k, v) List.mem_cons_self v' hw]
+
+theorem all_contains_iff (l r : List Str) :
+    (l.all (fun k => r.contains k)) = true ↔ ∀ k ∈ l, k ∈ r := by
+  simp [List.all_eq_true]
+
+-- the object case: mutual key inclusion vs. equal length, given the member-wise check
+theorem objCase (l r : List (Str × Json))
+    (hl : (Json.keys l).Nodup) (hr : (Json.keys r).Nodup) :
+    ((Json.keys l).all (fun k => (Json.keys r).contains k)
+      && (Json.keys r).all (fun k => (Json.keys l).contains k)
+      && Spec.objSub l r) = (l.length == r.length && Spec.objSub l r) := by
+  cases hs : Spec.objSub l r with
+  | false => simp
+  | true =>
+    have hsub := keys_subset_of_objSub hs
+    rw [Bool.and_true, Bool.and_true, Bool.eq_iff_iff]
+    simp only [Bool.and_eq_true, all_contains_iff, beq_iff_eq]
+    constructor
+    · rintro ⟨h1, h2⟩
+      have a := length_le_of_nodup_subset hl h1
+      have b := length_le_of_nodup_subset hr h2
+      rw [keys_length, keys_length] at a b
+      omega
+    · intro hlen
+      refine ⟨hsub, ?_⟩
+      apply subset_of_nodup_subset_length_le hl hsub
+      rw [keys_length, keys_length]; omega
 
 theorem jsonEq_correct (a b : Json) (ha : a.WF) (hb : b.WF) :
-    Impl.jsonEq a b = Spec.jsonEq a b := by sorry
+    Impl.jsonEq a b = Spec.jsonEq a b := by
+  induction a using jsonInd generalizing b with
+  | hnull => cases b <;> simp [Impl.jsonEq, Spec.jsonEq]
+  | hbool x => cases b <;> simp [Impl.jsonEq, Spec.jsonEq]
+  | hnum x => cases b <;> simp [Impl.jsonEq, Spec.jsonEq]
+  | hstr x => cases b <;> simp [Impl.jsonEq, Spec.jsonEq]
+  | harr xs ih =>
+    cases b with
+    | arr ys =>
+      simp only [Impl.jsonEq, Spec.jsonEq]
+      simp only [Json.WF] at ha hb
+      exact arrEq_correct_aux xs ys
+        (fun x hx y hy => ih x hx y ((wfArr_iff xs).1 ha x hx) hy) hb
+    | _ => simp [Impl.jsonEq, Spec.jsonEq]
+  | hobj l ih =>
+    cases b with
+    | obj r =>
+      simp only [Impl.jsonEq, Spec.jsonEq]
+      simp only [Json.WF] at ha hb
+      rw [objEq_correct_aux r hb.2 l
+        (fun kv hkv y hy => ih kv hkv y ((wfObj_iff l).1 ha.2 kv hkv) hy)]
+      exact objCase l r ha.1 hb.1
+    | _ => simp [Impl.jsonEq, Spec.jsonEq]
 
-theorem specJsonEq_refl (a : Json) (ha : a.WF) : Spec.jsonEq a a = true := by sorry
+/-! ### Reflexivity -/
+
+theorem arrEq_refl_aux : ∀ xs : List Json, (∀ x ∈ xs, Spec.jsonEq x x = true) →
+    Spec.arrEq xs xs = true
+  | [], _ => by simp [Spec.arrEq]
+  | x :: xs, h => by
+      simp only [Spec.arrEq, Bool.and_eq_true]
+      exact ⟨h x List.mem_cons_self,
+        arrEq_refl_aux xs (fun y hy => h y (List.mem_cons_of_mem _ hy))⟩
+
+theorem numBeq_refl (x : Num) : x.beq x = true := by simp [Num.beq]
+
+theorem specJsonEq_refl (a : Json) (ha : a.WF) : Spec.jsonEq a a = true := by
+  induction a using jsonInd with
+  | hnull => simp [Spec.jsonEq]
+  | hbool x => simp [Spec.jsonEq]
+  | hnum x => simp [Spec.jsonEq, numBeq_refl]
+  | hstr x => simp [Spec.jsonEq]
+  | harr xs ih =>
+    simp only [Spec.jsonEq]
+    simp only [Json.WF] at ha
+    exact arrEq_refl_aux xs (fun x hx => ih x hx ((wfArr_iff xs).1 ha x hx))
+  | hobj l ih =>
+    simp only [Spec.jsonEq, Bool.and_eq_true, beq_self_eq_true, true_and]
+    simp only [Json.WF] at ha
+    rw [objSub_iff]
+    intro kv hkv
+    exact ⟨kv.2, lookup_of_mem ha.1 hkv, ih kv hkv ((wfObj_iff l).1 ha.2 kv hkv)⟩
+
+/-! ### Symmetry -/
+
+theorem numBeq_symm (x y : Num) : x.beq y = y.beq x := by
+  simp only [Num.beq]
+  rw [Bool.eq_iff_iff]
+  simp only [beq_iff_eq]
+  exact eq_comm
+
+theorem arrEq_symm_aux : ∀ (xs ys : List Json),
+    (∀ x ∈ xs, ∀ y, y.WF → Spec.jsonEq x y = Spec.jsonEq y x) → Json.WFArr ys →
+    Spec.arrEq xs ys = Spec.arrEq ys xs
+  | [], [], _, _ => rfl
+  | [], _ :: _, _, _ => by simp [Spec.arrEq]
+  | _ :: _, [], _, _ => by simp [Spec.arrEq]
+  | x :: xs, y :: ys, ih, hw => by
+      simp only [Json.WFArr] at hw
+      simp only [Spec.arrEq]
+      rw [ih x List.mem_cons_self y hw.1,
+        arrEq_symm_aux xs ys (fun x hx => ih x (List.mem_cons_of_mem _ hx)) hw.2]
+
+theorem objSub_symm_aux (l r : List (Str × Json))
+    (hl : (Json.keys l).Nodup) (hr : (Json.keys r).Nodup) (hlen : l.length = r.length)
+    (hv : ∀ kv ∈ l, ∀ kv' ∈ r, Spec.jsonEq kv.2 kv'.2 = true → Spec.jsonEq kv'.2 kv.2 = true)
+    (hs : Spec.objSub l r = true) : Spec.objSub r l = true := by
+  have hsub := keys_subset_of_objSub hs
+  have hsup : ∀ k ∈ Json.keys r, k ∈ Json.keys l := by
+    apply subset_of_nodup_subset_length_le hl hsub
+    rw [keys_length, keys_length]; omega
+  rw [objSub_iff]
+  intro kv hkv
+  have hk : kv.1 ∈ Json.keys l := hsup _ (List.mem_map.2 ⟨kv, hkv, rfl⟩)
+  obtain ⟨kv0, hkv0, hk0⟩ := List.mem_map.1 hk
+  obtain ⟨v', hv', he⟩ := (objSub_iff l r).1 hs kv0 hkv0
+  have h1 : Json.lookup kv0.1 r = some kv.2 := by
+    rw [hk0]; exact lookup_of_mem hr hkv
+  have hvv : v' = kv.2 := by
+    rw [hv'] at h1; exact Option.some.inj h1
+  subst hvv
+  refine ⟨kv0.2, ?_, hv kv0 hkv0 kv hkv he⟩
+  rw [← hk0]
+  exact lookup_of_mem hl hkv0
 
 theorem specJsonEq_symm (a b : Json) (ha : a.WF) (hb : b.WF) :
-    Spec.jsonEq a b = Spec.jsonEq b a := by sorry
+    Spec.jsonEq a b = Spec.jsonEq b a := by
+  induction a using jsonInd generalizing b with
+  | hnull => cases b <;> simp [Spec.jsonEq]
+  | hbool x =>
+    cases b <;> simp [Spec.jsonEq]
+    rw [Bool.eq_iff_iff]; simp only [beq_iff_eq]; exact eq_comm
+  | hnum x =>
+    cases b <;> simp [Spec.jsonEq]
+    exact numBeq_symm _ _
+  | hstr x =>
+    cases b <;> simp [Spec.jsonEq]
+    rw [Bool.eq_iff_iff]; simp only [beq_iff_eq]; exact eq_comm
+  | harr xs ih =>
+    cases b with
+    | arr ys =>
+      simp only [Spec.jsonEq]
+      simp only [Json.WF] at ha hb
+      exact arrEq_symm_aux xs ys
+        (fun x hx y hy => ih x hx y ((wfArr_iff xs).1 ha x hx) hy) hb
+    | _ => simp [Spec.jsonEq]
+  | hobj l ih =>
+    cases b with
+    | obj r =>
+      simp only [Spec.jsonEq]
+      simp only [Json.WF] at ha hb
+      have ih' : ∀ kv ∈ l, ∀ kv' ∈ r, Spec.jsonEq kv.2 kv'.2 = Spec.jsonEq kv'.2 kv.2 :=
+        fun kv hkv kv' hkv' =>
+          ih kv hkv kv'.2 ((wfObj_iff l).1 ha.2 kv hkv) ((wfObj_iff r).1 hb.2 kv' hkv')
+      rw [Bool.eq_iff_iff]
+      simp only [Bool.and_eq_true, beq_iff_eq]
+      constructor
+      · rintro ⟨hlen, hs⟩
+        exact ⟨hlen.symm, objSub_symm_aux l r ha.1 hb.1 hlen
+          (fun kv hkv kv' hkv' h => by rw [← ih' kv hkv kv' hkv']; exact h) hs⟩
+      · rintro ⟨hlen, hs⟩
+        exact ⟨hlen.symm, objSub_symm_aux r l hb.1 ha.1 hlen
+          (fun kv' hkv' kv hkv h => by rw [ih' kv hkv kv' hkv']; exact h) hs⟩
+    | _ => simp [Spec.jsonEq]
+
+/-! ### Remaining table facts -/
 
 theorem jsonEq_bool_iff (b : Bool) (j : Json) :
-    Impl.jsonEq (.bool b) j = true ↔ j = .bool b := by sorry
+    Impl.jsonEq (.bool b) j = true ↔ j = .bool b := by
+  cases j <;> simp [Impl.jsonEq]
+  exact eq_comm
 
 theorem lt_only_num_str (a b : Json)
     (h : ¬ ((∃ x y, a = .num x ∧ b = .num y) ∨ (∃ x y, a = .str x ∧ b = .str y))) :
-    Impl.ltObj (.val a) (.val b) = false := by sorry
+    Impl.ltObj (.val a) (.val b) = false := by
+  cases a <;> cases b <;> simp [Impl.ltObj] at h ⊢
+
+theorem ltObj_val (a b : Json) : Impl.ltObj (.val a) (.val b) = Spec.jsonLt a b := by
+  cases a <;> cases b <;> simp [Impl.ltObj, Spec.jsonLt]
+
+theorem compare_correct (a b : Impl.Obj) (op : COp) (ha : Props.Comparand a) (hb : Props.Comparand b)
+    (wa : Props.ObjWF a) (wb : Props.ObjWF b) :
+    Impl.compare a op b = Spec.compare (Props.floorObj a) op (Props.floorObj b) := by
+  cases ha <;> cases hb <;> cases op <;>
+    first
+    | (simp only [Props.ObjWF] at wa wb
+       simp only [Impl.compare, Spec.compare, Impl.eqObj, Props.floorObj,
+         Spec.valEq, Spec.valLt, ltObj_val, jsonEq_correct _ _ wa wb])
+    | simp [Impl.compare, Spec.compare, Impl.eqObj, Impl.ltObj, Props.floorObj,
+        Spec.valEq, Spec.valLt]
 
 end JPV.Proofs
